@@ -211,6 +211,18 @@ func (e *exec) render(o *op) string {
 		for _, f := range o.fields {
 			parts = append(parts, fmt.Sprintf("(field f%d: %s)", f.f, e.rTexpr(f.t)))
 		}
+		switch o.shape {
+		case 'b':
+			return fmt.Sprintf("(struct %s)", e.sname(o.s))
+		case 'q':
+			return fmt.Sprintf("(struct (quote %s) [%s])", e.sname(o.s), strings.Join(parts, " "))
+		case 'x':
+			return fmt.Sprintf("(struct %s [(field f0: int64)] 5)", e.sname(o.s))
+		case 'n':
+			return fmt.Sprintf("(struct %s 5)", e.sname(o.s))
+		case 'e':
+			return fmt.Sprintf("(struct %s [(field f0: int64) 5])", e.sname(o.s))
+		}
 		return fmt.Sprintf("(struct %s [%s])", e.sname(o.s), strings.Join(parts, " "))
 	case 'C':
 		parts := []string{}
